@@ -409,6 +409,58 @@ def qft(ctx, n, inverse):
             ctx.eq('product of the groups == bit-reversed DFT%s' % (' (conjugate)' if inverse else ''), Pb, F, extra_assumptions=ax)
 
 
+@scenario('C13', 'qft_gates', lambda tier: [{'n': n, 'inverse': inv} for n in ((2, 4, 5, 6) if tier == 'quick' else (2, 3, 4, 5, 6, 7)) for inv in (False, True)])
+def qft_gates(ctx, n, inverse):
+    """every gate group == its circuit semantics: controlled phase rotations exp(+-i pi/2^(k-i)) from qubit i onto qubit k, then Hadamard on qubit k
+    (entry-wise on the dense 2^n x 2^n matrix; the product of the standard QFT circuit is the bit-reversed DFT)"""
+    mdl = ctx.R.models
+    if ctx.mode == 'tv':
+        raise SkipTV()
+    N = 2 ** n
+    label = 'product of the groups == bit-reversed DFT%s' % (' (conjugate)' if inverse else '')
+    if not ctx.sym:
+        G = mdl.iqft(n) if inverse else mdl.qft(n)
+        prod = np.eye(N, dtype=complex)
+        for g in G:
+            prod = np.asarray(g.matricize()) @ prod
+        sgn = -1 if inverse else 1
+        F = np.array([[np.exp(sgn * 2j * np.pi * j * k / N) / np.sqrt(N) for k in range(N)] for j in range(N)])
+        rev = [int(format(j, '0%db' % n)[::-1], 2) for j in range(N)]
+        ctx.check(label, bool(np.allclose(prod[rev, :], F, atol=1e-10) or np.allclose(prod[:, rev], F, atol=1e-10)))
+        return
+    from symtt import state, lapack
+    from symtt.scalar import Sc
+    state.reset()
+    G = mdl.iqft(n) if inverse else mdl.qft(n)
+    pi = lapack.const_pi()
+    inv_sqrt2 = Sc(1) / Sc(2).sqrt()
+    sgn = Sc(-1) if inverse else Sc(1)
+    with ctx.group(label):
+        ctx.check('n gate groups', len(G) == n)
+        for k in range(n):
+            M = D.as_matrix(G[k].full(), n)
+            exp = ctx.zeros((N, N))
+            for x in range(N):
+                xb = [(x >> (n - 1 - q)) & 1 for q in range(n)]
+                ph = Sc(1)
+                if xb[k] == 1:
+                    for i in range(k):
+                        if xb[i] == 1:
+                            ph = ph * (Sc(0, 1) * sgn * pi * Sc(1) / Sc(2 ** (k - i))).exp()
+                for yk in (0, 1):
+                    yb = list(xb)
+                    yb[k] = yk
+                    y = 0
+                    for q in range(n):
+                        y = (y << 1) | yb[q]
+                    amp = ph * inv_sqrt2
+                    if xb[k] == 1 and yk == 1:
+                        amp = -amp
+                    D._set(exp, (y, x), amp)
+            ctx.eq('gate group %d == controlled rotations exp(%si pi/2^(k-i)) then Hadamard on qubit %d' % (k, '-' if inverse else '+', k), M, exp,
+                   extra_assumptions=list(state.S.axioms))
+
+
 @scenario('C13', 'circuits', lambda tier: [{'which': 'qfa'}, {'which': 'qfan1'}, {'which': 'qfan2'}, {'which': 'shor2'}, {'which': 'shor7'}, {'which': 'shor11'}])
 def circuits(ctx, which):
     """qfa / qfan / shor: permutation matrices (hence unitary), exact; qfa adds its three input bits"""
